@@ -69,6 +69,13 @@ func (s *Sym) String() string {
 		}
 		return shortCallee(s.Name) + "(" + strings.Join(p, ", ") + ")"
 	case "elem":
+		if s.Name == "#1" && s.V != nil {
+			if ex, ok := s.V.(*ssa.Extract); ok {
+				if _, isLookup := ex.Tuple.(*ssa.Lookup); isLookup {
+					return s.Args[0].String() + "[]#ok"
+				}
+			}
+		}
 		return s.Args[0].String() + "[]"
 	}
 	return "?"
